@@ -61,16 +61,17 @@ type Registry struct {
 	Host  string
 	Repos map[string]*Repo
 
-	ReferrersAPI bool // referrers endpoint and OCI-Subject acknowledgement
-	ServerFilter bool // the referrers endpoint applies the artifactType filter
-	PageSize     int  // referrers page size, 0 = unpaged
-	TagPage      int  // tag listing page size enforced by the registry, 0 = unpaged
-	TagDelete    bool // DELETE manifests/<tag> supported
-	Mount        bool // cross-repository mount granted when the named source holds the blob
-	HeadDigest   bool // HEAD/GET of a manifest carries Docker-Content-Digest
-	ValidateRefs bool // a manifest is rejected unless everything it references is present
-	ReadOnly     bool // every state-changing request is refused (403)
-	MaxPutBody   int  // a closing PUT that carries more than this many bytes is refused (413); 0 = no limit
+	ReferrersAPI         bool   // referrers endpoint and OCI-Subject acknowledgement
+	ServerFilter         bool   // the referrers endpoint applies the artifactType filter
+	PageSize             int    // referrers page size, 0 = unpaged
+	TagPage              int    // tag listing page size enforced by the registry, 0 = unpaged
+	TagDelete            bool   // DELETE manifests/<tag> supported
+	Mount                bool   // cross-repository mount granted when the named source holds the blob
+	HeadDigest           bool   // HEAD/GET of a manifest carries Docker-Content-Digest
+	ValidateRefs         bool   // a manifest is rejected unless everything it references is present
+	ReadOnly             bool   // every state-changing request is refused (403)
+	DigestHeaderOverride string // when set, manifest GET/HEAD announce this digest instead of the real one
+	MaxPutBody           int    // a closing PUT that carries more than this many bytes is refused (413); 0 = no limit
 
 	// Before runs first for every request. A non-zero result replaces the
 	// normal handling: -1 = transport failure, otherwise that status code.
@@ -458,6 +459,9 @@ func (r *Registry) Do(c *reghttp.Client, ctx context.Context, req *reghttp.Req) 
 			h := http.Header{"Content-Type": {rp.MT[dg]}, "Content-Length": {strconv.Itoa(len(b))}}
 			if r.HeadDigest {
 				h.Set("Docker-Content-Digest", dg)
+				if r.DigestHeaderOverride != "" {
+					h.Set("Docker-Content-Digest", r.DigestHeaderOverride)
+				}
 			}
 			if req.Method == "HEAD" {
 				return reply(200, h, nil)
